@@ -116,6 +116,8 @@ def build(cfg, folder=None, model=None):
     return Calibrator(loss_function=make_loss(cfg["loss"]), real_data=real_data(cfg.get("N", 24)), model=model or (toy_model_mut if cfg.get("model") == "mutating" else toy_model),
                       parameters_bounds=[[0.0] * d, [1.0] * d], parameters_precision=[cfg.get("prec", 0.01)] * d,
                       ensemble_size=cfg["ensemble"], verbose=cfg.get("verbose", False), saving_folder=folder,
+                      # a simulation length other than the real one only with losses that compare summaries (point-wise losses need equal lengths)
+                      sim_length=cfg.get("sim_length") if str(cfg["loss"]).startswith(("msm", "likelihood", "gsl")) else None,
                       random_state=cfg["seed"], n_jobs=cfg.get("n_jobs", 1), **kw)
 
 
